@@ -224,6 +224,8 @@ class AoefSim:
             self.do_save(op)
         elif kind == "load":
             self.do_load(op)
+        elif kind == "touch":
+            self.do_touch(op)
         elif kind == "restart":
             self.restart(op["node"])
             self.record(op, "ok")
@@ -238,6 +240,22 @@ class AoefSim:
             self.probes.hit("clock-jump-back" if op["seconds"] < 0 else "clock-jump")
         else:
             raise HarnessError(f"unknown op {kind}")
+
+    def do_touch(self, op):
+        """In-place edit of live objects a node already holds."""
+        spec = self.worlds.get(op["k"])
+        n = op["node"]
+        node = self.nodes.get(n)
+        if spec is None or node is None or not node.alive:
+            return self.record(op, "skipped")
+        key = specs.spec_key(spec)
+        if key not in self.node_worlds.get(n, ()):
+            return self.record(op, "skipped")
+        reply = node.call("touch", world=key, seed=op["seed"])
+        self.record(op, reply["outcome"], edits=reply.get("edits"))
+        self.trace.append(("touch", len(reply.get("edits") or [])))
+        if reply["outcome"] == "ack":
+            self.probes.hit("touch:live-objects-edited-in-place")
 
     # ---------------------------------------------------------------- save
 
@@ -897,6 +915,22 @@ class _Gen:
         self.load(p, n=n, audio=audio)
         self.load(p, n=self.other_node(n), audio=audio)
 
+    def pat_touch(self):
+        """Save, edit the very same live objects in place, save again."""
+        k = self.ensure_world()
+        p, n = self.path(), self.node()
+        root = self.root()
+        audio = self.audio_for_save(k)
+        self.save(k, p=p, n=n, root=root, audio=audio, fault=None)
+        if self.rng.random() < 0.5:
+            self.load(p, n=n, audio=audio)
+        self.emit({"op": "touch", "k": k, "node": n,
+                   "seed": self.rng.randrange(1 << 30)})
+        p2 = self.rng.choice([p, self.path()])
+        self.save(k, p=p2, n=n, root=self.rng.choice([root, self.root()]),
+                  audio=audio, fault=None)
+        self.load(p2, n=self.rng.choice([n, self.other_node(n)]), audio=audio)
+
     def pat_two_saves(self):
         a = self.ensure_world(0)
         b = self.ensure_world(1)
@@ -981,6 +1015,7 @@ PATTERNS = {
         ("pat_all_types", 2),
         ("pat_overwrite", 2),
         ("pat_stale", 2),
+        ("pat_touch", 2),
         ("pat_two_saves", 2),
         ("pat_fault_heal", 2),
         ("pat_cycle", 3),
@@ -993,6 +1028,7 @@ PATTERNS = {
         ("pat_all_types", 3),
         ("pat_two_saves", 3),
         ("pat_stale", 2),
+        ("pat_touch", 2),
         ("pat_cycle", 3),
         ("pat_fault_heal", 1),
         ("pat_overwrite", 1),
@@ -1092,6 +1128,7 @@ CORE_PROBES = {
         "load:checked:cycle>=2",
         "save:overwrite-with-shorter",
         "save:success-after-failed-save",
+        "touch:live-objects-edited-in-place",
     ]
     + [f"load:checked:{t}" for t in COLLECTION_TYPE.values()]
     + WRITE_FAULTS
